@@ -70,6 +70,7 @@ type Del struct {
 	Pub       time.Time // delivery publish time (approximate: op start)
 	PubExact  time.Time // exact, once observed through a pull (direct publishes only)
 	AckID     string
+	Probe     time.Time // a time worth pulling at: just after a positive modack that is shorter than the lease
 	Completed time.Time
 	Seek      bool // a seek changed this delivery's state
 	PrunedMay bool // the completed row may have been removed by a prune job
@@ -106,6 +107,9 @@ type Peeker interface {
 }
 
 type Model struct {
+	// Session: the response being applied comes from a streaming-pull session
+	// (what was sent before the client hung up): only the must-not rules apply
+	Session bool
 	Topics  map[string]*Topic
 	Subs    map[string]*Sub
 	Snaps   map[string]*Snap
@@ -605,7 +609,7 @@ func (m *Model) Pull(name string, max int, now time.Time, resp []*pubsubpb.Recei
 			res.Det = false
 		}
 	}
-	if len(resp) > max {
+	if len(resp) > max && !m.Session {
 		bad("C02", "too-many", "returned %d messages", len(resp))
 	}
 	// match
@@ -676,7 +680,18 @@ func (m *Model) Pull(name string, max int, now time.Time, resp []*pubsubpb.Recei
 				// the implementation orders by a link to the *previous* same-key
 				// delivery only; after a rewinding seek an older, revived message
 				// is not waited for (known finding F12)
-				sig["revived_predecessor"] = by != nil && by.Seek
+				// (F12's shape precisely: the blocking message was revived by a
+				// seek, and the *direct* predecessor - the most recent earlier
+				// same-key delivery, the only one the implementation links to - is
+				// itself settled)
+				var dp *Del
+				for _, x := range s.Dels {
+					if x != d && x.Msg.Spec.Key == d.Msg.Spec.Key && x.Pub.Before(d.Pub) && (dp == nil || x.Pub.After(dp.Pub)) {
+						dp = x
+					}
+				}
+				dpSettled := dp != nil && (dp.State == Acked || dp.State == DLd || m.expiry(dp, now) == 1)
+				sig["revived_predecessor"] = by != nil && by.Seek && dp != by && dpSettled
 				viols = append(viols, Viol{Prop: c.prop, Rule: "must-not/" + c.reason, Sig: sig, Detail: fmt.Sprintf("Pull(%s) at +%v returned message #%d (key %q) while earlier message #%d with the same key is still outstanding (attempts %d, state %s)", name, now.Sub(epoch), d.Msg.Idx, d.Msg.Spec.Key, by.Msg.Idx, by.N, by.State)})
 			} else {
 				var also []string
@@ -730,7 +745,7 @@ func (m *Model) Pull(name string, max int, now time.Time, resp []*pubsubpb.Recei
 			unexpected = true
 		}
 	}
-	if unexpected {
+	if unexpected || m.Session {
 		m.C["completeness-not-judged"]++
 	} else if !res.Truncated {
 		for _, d := range s.Dels {
@@ -870,6 +885,9 @@ func (m *Model) ModAck(dels []*Del, secs int, now time.Time) {
 		}
 		at := now.Add(time.Duration(secs) * time.Second)
 		if secs > 0 {
+			if at.Before(d.Lo) {
+				d.Probe = at
+			}
 			if d.Lo.Before(at) {
 				d.Lo = at
 			}
